@@ -260,7 +260,18 @@ func (f *STFS) Initialize(rootProposal string, rootPerm os.FileMode) (root strin
 
 			f.onHeader,
 		); err != nil {
-			return mkdirRoot(true)
+			// The tape could not be indexed completely, i.e. because its last record is torn; keep what has been indexed
+			// and only create a new root if the tape did not contain one
+			existingRoot, err := f.metadata.Metadata.GetRootPath(context.Background())
+			if err == config.ErrNoRootDirectory {
+				return mkdirRoot(true)
+			}
+
+			if cerr := f.readOps.GetBackend().CloseReader(); cerr != nil {
+				return "", cerr
+			}
+
+			return existingRoot, err
 		}
 
 		if err := f.readOps.GetBackend().CloseReader(); err != nil {
